@@ -98,13 +98,18 @@ def generate(run_seed: int, tier: str) -> dict:
                           "index": core.weighted(rng, [("rid", 3), ("range", 2), ("str", 1)])}
     if enable["bad_input"]:
         datas["DX"] = {"ids": rng.sample(range(n), min(n, 8)), "container": "pandas", "index": "range", "drop_col": rng.choice(sorted(u["cols"]))}
-    contexts = {"C0": {"const": 2.0, "myfun": "double"}, "C1": {"const": 3.0, "myfun": rng.choice(CTX_FUNCS)}}
+    contexts = {"C0": {"const": 2.0, "myfun": "double", "knots": [-0.5, 0.5]},
+                "C1": {"const": 3.0, "myfun": rng.choice(CTX_FUNCS), "knots": [-1.0, 0.0, 1.0]}}
+    if swarm.random() < 0.5:
+        # the caller's own *plain* function shadows a built-in stateful transform of the same name in this context
+        contexts["C1"]["shadow"] = rng.choice(["center", "scale", "poly"])
     # formulas
     frecipes = []
     for i in range(swarm.randint(2, 4)):
         f = world.gen_formula(rng, u, rich=swarm.random() < 0.8, structured_p=swarm.choice([0.0, 0.3, 0.5]), max_terms=swarm.choice([2, 3, 4]), force_ticked=True)
         if isinstance(f["spec"], str) and rng.random() < 0.3:
-            f["spec"] += rng.choice([" + myfun(x)", " + {x * const}", " + myfun(x):const"])
+            f["spec"] += rng.choice([" + myfun(x)", " + {x * const}", " + myfun(x):const", " + bs(x, knots=knots, extrapolation='extend')",
+                                     " + bs(x, knots=knots, degree=2, extrapolation='clip')"])
             f["uses_ctx"] = True
         frecipes.append(f)
 
@@ -225,7 +230,10 @@ def generate(run_seed: int, tier: str) -> dict:
             if not isinstance(frecipes[fi]["spec"], str):
                 continue
             fid = new("F", fi=fi, custom_parser=True)
-            ops.append({"op": "parse", "out": fid, "fi": fi, "parser": {"include_intercept": rng.random() < 0.5}, "ordering": rng.choice(["degree", "none", "sort"]), "client": c})
+            pcfg: dict[str, Any] = {"include_intercept": rng.random() < 0.5}
+            if rng.random() < 0.6:
+                pcfg["feature_flags"] = rng.choice([[], ["twosided"], ["all"], ["multipart"], ["twosided", "multipart", "multistage"]])
+            ops.append({"op": "parse", "out": fid, "fi": fi, "parser": pcfg, "ordering": rng.choice(["degree", "none", "sort"]), "client": c})
         elif kind == "bad":
             which = rng.choice(["missing_col", "na_raise", "bad_formula", "unknown_name"])
             if which == "missing_col":
@@ -265,9 +273,22 @@ class Interrupt(BaseException):
     """Models an asynchronous MemoryError / KeyboardInterrupt raised at an arbitrary line."""
 
 
-def make_context(recipe: dict, fault: Optional[dict]) -> dict:
+def shared_context_values(recipe: dict) -> dict:
+    """Caller-owned values that persist across the calls of one side (history or pristine child)."""
     fn = {"double": (lambda x: x * 2), "square": (lambda x: x * x), "shift": (lambda x: x + 1)}[recipe["myfun"]]
-    ctx: dict[str, Any] = {"const": recipe["const"], "myfun": fn, **world.user_context()}
+    vals: dict[str, Any] = {"const": recipe["const"], "myfun": fn, "knots": list(recipe.get("knots", [-0.5, 0.5])), **world.user_context()}
+    sh = recipe.get("shadow")
+    if sh == "center":
+        vals["center"] = lambda x: x - 1.0
+    elif sh == "scale":
+        vals["scale"] = lambda x: x / 2.0
+    elif sh == "poly":
+        vals["poly"] = lambda x, degree=1, raw=False: x ** degree
+    return vals
+
+
+def make_context(shared: dict, fault: Optional[dict]) -> dict:
+    ctx: dict[str, Any] = dict(shared)
     count = [0]
     at = fault["at"] if fault and fault.get("kind") == "user_exc" else None
 
@@ -289,7 +310,13 @@ def client_fn_call(spec: Any, data: Any, opts: dict, ctx: dict, drop: Any) -> An
     const = ctx["const"]  # noqa: F841
     myfun = ctx["myfun"]  # noqa: F841
     flaky = ctx["flaky"]  # noqa: F841
-    usr_center, usr_sq, usr_offset = ctx["usr_center"], ctx["usr_sq"], ctx["usr_offset"]  # noqa: F841
+    usr_center, usr_sq, usr_offset, knots = ctx["usr_center"], ctx["usr_sq"], ctx["usr_offset"], ctx["knots"]  # noqa: F841
+    if "center" in ctx:
+        center = ctx["center"]  # noqa: F841
+    if "scale" in ctx:
+        scale = ctx["scale"]  # noqa: F841
+    if "poly" in ctx:
+        poly = ctx["poly"]  # noqa: F841
     if drop is not None:
         return model_matrix(spec, data, drop_rows=drop, **opts)
     return model_matrix(spec, data, **opts)
@@ -301,6 +328,12 @@ class World:
     def __init__(self, sc: dict):
         self.sc = sc
         self.data: dict[str, Any] = {}
+        self.ctx: dict[str, dict] = {}
+
+    def get_ctx(self, name: str) -> dict:
+        if name not in self.ctx:
+            self.ctx[name] = shared_context_values(self.sc["contexts"][name])
+        return self.ctx[name]
 
     def get_data(self, name: str) -> Any:
         if name not in self.data:
@@ -353,6 +386,14 @@ def apply_op(sc: dict, op: dict, objs: dict, w: World, tracer: Any = None) -> di
 
     k = op["op"]
     products: dict[str, Any] = {}
+    held: dict[str, Any] = {}
+
+    def ctx_mutated() -> bool:
+        if "ctx" not in held:
+            return False
+        ctx, snap = held["ctx"]
+        return list(ctx) != list(snap) or any(ctx[kk] is not snap[kk] for kk in snap)
+
     try:
         with warnings.catch_warnings(record=True) as wl:
             warnings.simplefilter("always")
@@ -362,7 +403,10 @@ def apply_op(sc: dict, op: dict, objs: dict, w: World, tracer: Any = None) -> di
             elif k == "parse":
                 spec = world.spec_to_python(sc["formulas"][op["fi"]]["spec"])
                 if op.get("parser"):
-                    f = Formula(spec, _parser=DefaultFormulaParser(**op["parser"]), _ordering=op.get("ordering", "degree"))
+                    pcfg = dict(op["parser"])
+                    if "feature_flags" in pcfg:
+                        pcfg["feature_flags"] = set(pcfg["feature_flags"])
+                    f = Formula(spec, _parser=DefaultFormulaParser(**pcfg), _ordering=op.get("ordering", "degree"))
                 else:
                     f = Formula(spec)
                 products[op["out"]] = f
@@ -378,7 +422,8 @@ def apply_op(sc: dict, op: dict, objs: dict, w: World, tracer: Any = None) -> di
             elif k == "build":
                 fv = formula_value(sc, op["formula"], objs, op.get("append", ""))
                 data = w.get_data(op["data"])
-                ctx = make_context(sc["contexts"][op["ctx"]], op.get("fault"))
+                ctx = make_context(w.get_ctx(op["ctx"]), op.get("fault"))
+                held["ctx"] = (ctx, dict(ctx))
                 drop = objs[op["drop"]] if op.get("drop") else None
                 kw = dict(op["opts"])
                 if tracer:
@@ -402,7 +447,8 @@ def apply_op(sc: dict, op: dict, objs: dict, w: World, tracer: Any = None) -> di
             elif k == "reuse":
                 src = objs[op["src"]]
                 data = w.get_data(op["data"])
-                ctx = make_context(sc["contexts"][op["ctx"]], op.get("fault"))
+                ctx = make_context(w.get_ctx(op["ctx"]), op.get("fault"))
+                held["ctx"] = (ctx, dict(ctx))
                 drop = objs[op["drop"]] if op.get("drop") else None
                 if tracer:
                     tracer.start()
@@ -444,11 +490,12 @@ def apply_op(sc: dict, op: dict, objs: dict, w: World, tracer: Any = None) -> di
                 dig = spec_read(objs[op["src"]], Structured)
             else:
                 raise ValueError(k)
-        return {"status": "ok", "digest": dig, "products": products, "err": None}
+        return {"status": "ok", "digest": dig, "products": products, "err": None, "ctx_mutated": ctx_mutated()}
     except Interrupt:
-        return {"status": "interrupted", "digest": None, "products": {}, "err": "Interrupt"}
+        return {"status": "interrupted", "digest": None, "products": {}, "err": "Interrupt", "ctx_mutated": ctx_mutated()}
     except Exception as e:  # noqa: BLE001
-        return {"status": "failed", "digest": None, "products": {}, "err": f"{type(e).__name__}: {str(e)[:160]}", "errclass": type(e).__name__}
+        return {"status": "failed", "digest": None, "products": {}, "err": f"{type(e).__name__}: {str(e)[:160]}", "errclass": type(e).__name__,
+                "ctx_mutated": ctx_mutated()}
 
 
 # ---- digests -----------------------------------------------------------------
@@ -730,6 +777,10 @@ def execute(scenario: dict, env: Any) -> dict:
                 inv[key] = d
             elif inv[key] != d:
                 raise Violation("c18:input-mutated:data", {"data": name})
+        for name, vals in w.ctx.items():
+            rec = sc["contexts"][name]
+            if vals["knots"] != list(rec.get("knots", [-0.5, 0.5])) or vals["const"] != rec["const"]:
+                raise Violation("c18:input-mutated:context", {"context": name, "knots": vals["knots"], "recipe": rec})
         for oid, obj in objs.items():
             if oid[0] == "F":
                 key = "formula:" + oid
@@ -788,6 +839,8 @@ def execute(scenario: dict, env: Any) -> dict:
                 tracer = Tracer(fault["at"], env.src_root + "/formulaic")
             np.random.seed(core.h64("hist", sc["np_seed"], seq) % (2**32))
             mine = apply_op(sc, op, objs, w, tracer)
+            if mine.get("ctx_mutated"):
+                raise Violation("c18:input-mutated:context", {"op": op["op"], "why": "the context mapping passed by the caller gained/lost keys or had values rebound"})
             # ---- probes / signature
             src = op.get("src")
             tgt = src or (op["formula"] if isinstance(op.get("formula"), str) else None)
